@@ -31,3 +31,198 @@ PLANS["C14"] = dict(
     recognisers={"c14_same_rounding": rec_c14_same_rounding},
     assumptions=["values exactly representable in f32 (the property's own hypothesis); Quat/DQuat delegate to glam's own lerp and are not modelled"],
 )
+
+
+# ---------------------------------------------------------------------------------------------------
+# C13
+import os, random
+import pipeline as P
+
+EASINGS = ["Linear", "Ease", "In", "Out", "InOut", "InSine", "OutSine", "InOutSine", "InQuad", "OutQuad", "InOutQuad",
+           "InCubic", "OutCubic", "InOutCubic", "InQuart", "OutQuart", "InOutQuart", "InQuint", "OutQuint", "InOutQuint",
+           "InExpo", "OutExpo", "InOutExpo", "InCirc", "OutCirc", "InOutCirc", "InBack", "OutBack", "InOutBack"]
+
+
+def bits_of(x):
+    return struct.unpack("<I", struct.pack("<f", x))[0]
+
+
+def ulps_apart(a_bits, b_bits):
+    def key(b):
+        b = int(b)
+        return -(b & 0x7FFFFFFF) if b & 0x80000000 else b
+    return abs(key(a_bits) - key(b_bits))
+
+
+def run_pair(prop, tag, ops, profiles):
+    """run ops on the implementation (first profile) and on the model driver; returns (impl_lines, model_lines)"""
+    os.makedirs(os.path.join(P.WORK, prop), exist_ok=True)
+    base = os.path.join(P.WORK, prop, tag)
+    open(base + ".ops", "w").write("\n".join(ops) + "\n")
+    P.run_stream(P.harness_bin(profiles[0]), ["run"], base + ".ops", base + ".impl")
+    P.run_stream(P.MODEL_EXE, [], base + ".ops", base + ".model")
+    return P.read_lines(base + ".impl"), P.read_lines(base + ".model"), base + ".ops"
+
+
+def extra_c13(prop, tier, seed, profiles):
+    """Spec oracles: (a) the implementation equals the *published* curve evaluated parametrically, bit for
+    bit (what the code is documented to compute, with the hand-transcribed constants — independent of the
+    generated table); (b) the implementation against the true CSS timing function (F-C13)."""
+    rng = random.Random(seed)
+    n = 64 if tier == "quick" else 4096
+    ops = []
+    for name in EASINGS:
+        xs = [0.0, 1.0, 0.5, 0.25, 0.75] + [rng.random() for _ in range(n)]
+        toks = " ".join(str(bits_of(x)) for x in xs)
+        ops += [f"ease {name} {toks}", f"easepub {name} {toks}", f"timing {name} {toks}"]
+    impl, model, path = run_pair(prop, f"spec.{tier}", ops, profiles)
+    fails, checked, hist = [], 0, {}
+    for k, name in enumerate(EASINGS):
+        xs = ops[3 * k].split(" ")[2:]
+        got = impl[3 * k].split(" ")
+        pub = model[3 * k + 1].split(" ")
+        tim = model[3 * k + 2].split(" ")
+        for x, g, p, t in zip(xs, got, pub, tim):
+            checked += 2
+            if g != p:
+                fails.append(dict(line=3 * k, directive=f"spec parametric-published {name}", op=f"ease {name} {x}", got=g, want=p, ops=[f"ease {name} {x}", f"easepub {name} {x}"], parametric=p))
+            elif ulps_apart(g, t) > 8 and abs(f32(g) - f32(t)) > 1e-6:
+                hist["timing-mismatch"] = hist.get("timing-mismatch", 0) + 1
+                fails.append(dict(line=3 * k, directive=f"spec timing-function {name}", op=f"ease {name} {x}", got=g, want=t, ops=[f"ease {name} {x}", f"timing {name} {x}"], parametric=p))
+    # dense sweeps (digest comparison model vs implementation)
+    sweeps = []
+    one = 0x3F800000
+    if tier == "thorough":
+        for name in EASINGS:
+            sweeps.append(f"easesweep {name} 0 {one // 64 + 1} 64")
+            sweeps.append(f"easesweep {name} 0 1048576 1")
+            sweeps.append(f"easesweep {name} {one - 1048575} 1048576 1")
+    else:
+        for name in EASINGS:
+            sweeps.append(f"easesweep {name} 0 65536 16257")
+            sweeps.append(f"easesweep {name} {one - 4095} 4096 1")
+    si, sm, _ = run_pair(prop, f"sweep.{tier}", sweeps, profiles)
+    problems = []
+    evals = 0
+    for o, a, b in zip(sweeps, si, sm):
+        evals += int(o.split(" ")[3])
+        if a != b:
+            problems.append(f"correspondence broken: sweep digest differs for `{o}`")
+    return dict(checked=checked, fails=fails, evaluations=evals + checked // 2, hist=hist, problems=problems,
+                notes=[f"{len(sweeps)} sweep ops, {evals} x-values digested on both sides"])
+
+
+def rec_c13_parametric(f):
+    """F-C13: the implementation returns the published curve's y at *parameter* t=x (bit-exactly), which is
+    not the timing function at horizontal position x."""
+    return f.get("directive", "").startswith("spec timing-function") and f.get("parametric") == f.get("got")
+
+
+PLANS["C13"] = dict(
+    suites=[Suite("ease", 1500, 100000)],
+    floors={"quick": {"op:ease": 1000}},
+    extra=extra_c13,
+    recognisers={"c13_parametric": rec_c13_parametric},
+    assumptions=["published control points transcribed by hand in lean/MinaModel/Spec/Published.lean (T6)",
+                 "lyon_geom 1.0 CubicBezierSegment::y(t) operation order transcribed in MinaModel/Easing.lean (validated bit-exactly)"],
+)
+
+
+# ---------------------------------------------------------------------------------------------------
+# C03
+
+from fractions import Fraction
+
+
+def f32_round(q):
+    """correctly rounded (nearest-even) binary32 of an exact rational, as a Python float"""
+    q = Fraction(q)
+    if q == 0: return 0.0
+    neg = q < 0
+    q = abs(q)
+    num, den = q.numerator, q.denominator
+    e = num.bit_length() - den.bit_length() - 23
+    def scaled(e):
+        return (num, den << e) if e >= 0 else (num << -e, den)
+    n, d = scaled(e)
+    if n // d >= 1 << 24: e += 1
+    elif n // d < 1 << 23: e -= 1
+    e = max(e, -149)
+    n, d = scaled(e)
+    m, r = divmod(n, d)
+    if 2 * r > d or (2 * r == d and m % 2 == 1): m += 1
+    v = Fraction(m) * (Fraction(2) ** e)
+    x = float(v) if v < Fraction(2) ** 128 else float("inf")
+    return -x if neg else x
+
+
+def parse_pos(tok):
+    if tok == "N": return ("N", None, None)
+    if tok[0] == "E": return ("E", f32(tok[1:]), None)
+    v, fl = tok[1:].split(":")
+    return ("A", f32(v), fl)
+
+
+def extra_c03(prop, tier, seed, profiles):
+    """Relational oracles on the implementation's `get_position` outputs alone: range, NotStarted iff
+    t < delay, terminal iff past cycle x (repeats+1), terminal value, and the sweeps (model-vs-code digests)."""
+    n = 1500 if tier == "quick" else 60000
+    path = os.path.join(P.WORK, prop, f"oracle.{tier}.ops")
+    os.makedirs(os.path.dirname(path), exist_ok=True)
+    P.gen_ops("pos", seed + 77, n, path)
+    out = path[:-4] + ".impl"
+    P.run_stream(P.harness_bin(profiles[0]), ["run"], path, out)
+    ops, impl = P.read_lines(path), P.read_lines(out)
+    fails, checked = [], 0
+    for L, (op, o) in enumerate(zip(ops, impl)):
+        w = op.split(" ")
+        if w[0] != "pos": continue
+        dur, delay, rep, rev = f32(w[1]), f32(w[2]), w[3], w[4] == "1"
+        toks = o.split(" ")
+        total, res = toks[0], toks[1:]
+        for tb, r in zip(w[5:], res):
+            t = f32(tb)
+            kind, v, fl = parse_pos(r)
+            checked += 1
+            bad = None
+            c = f32_round(Fraction(t) - Fraction(delay))
+            if (kind == "N") != bool(c < 0): bad = "NotStarted iff time < delay"
+            elif kind != "N" and not (0.0 <= v <= 1.0): bad = "position in [0,1]"
+            elif kind == "E" and v != (0.0 if rev else 1.0): bad = "terminal position is 100% (0% when reversing)"
+            elif kind == "E" and rep == "i": bad = "never terminal for infinite repeat"
+            elif kind != "N" and rep != "i":
+                cycles = f32_round(1 if rep == "n" else int(rep) + 1)
+                limit = f32_round(Fraction(dur) * Fraction(cycles))
+                if (kind == "E") != bool(c > limit): bad = "terminal iff time since delay > cycle x (repeats+1)"
+            if bad:
+                fails.append(dict(line=L, directive=f"relational {bad}", op=f"pos {w[1]} {w[2]} {w[3]} {w[4]} {tb}", got=r, want=bad, ops=[f"pos {w[1]} {w[2]} {w[3]} {w[4]} {tb}"]))
+    # sweeps: consecutive f32 bit patterns around phase boundaries + strided whole axis
+    rng = random.Random(seed)
+    sweeps = []
+    ncfg = 6 if tier == "quick" else 64
+    width = 1 << (12 if tier == "quick" else 20)
+    for _ in range(ncfg):
+        dur = rng.choice([1.0, 0.5, 2.0, 3.0, 0.3, 10.0, 0.7, 1e-3, 123.456, 0.1])
+        delay = rng.choice([0.0, 1.0, 0.1, 2.5, 0.333, 1e-3])
+        rep = rng.choice(["n", "i", "0", "1", "2", "3", "7"])
+        rev = rng.choice([0, 1])
+        cfg = f"{bits_of(dur)} {bits_of(delay)} {rep} {rev}"
+        k = rng.choice([0, 1, 2, 3])
+        for centre in (delay, delay + dur * k, delay + dur * (k + 0.5), delay + dur * (1 if rep in "ni" else int(rep) + 1)):
+            cb = bits_of(centre)
+            sweeps.append(f"possweep {cfg} {max(0, cb - width // 2)} {width} 1")
+        sweeps.append(f"possweep {cfg} 0 {(0x7F800000 // 65521) if tier == 'thorough' else 4096} {65521 if tier == 'thorough' else 520000}")
+    si, sm, _ = run_pair(prop, f"sweep.{tier}", sweeps, profiles)
+    problems, evals = [], 0
+    for o, a, b in zip(sweeps, si, sm):
+        evals += int(o.split(" ")[6])
+        if a != b: problems.append(f"correspondence broken: sweep digest differs for `{o}`")
+    return dict(checked=checked, fails=fails, evaluations=evals, problems=problems, notes=[f"{len(sweeps)} position sweeps, {evals} times digested on both sides"])
+
+
+PLANS["C03"] = dict(
+    suites=[Suite("pos", 3000, 200000), Suite("tl", 150, 4000)],
+    floors={"quick": {"pos:N": 500, "pos:E": 500, "pos:A00": 500, "pos:A10": 500, "pos:A01": 200, "pos:A11": 200}},
+    extra=extra_c03,
+    assumptions=["cycle duration > 0, finite delay (the property's hypotheses)"],
+)
